@@ -325,7 +325,9 @@ def run(rng: Rng, tier: str, index: int) -> RunResult:
     k0 = cell["rkeys"][0]
     if k0.kty == "oct" and len(cell["rkeys"]) == 1:
         import unicodedata
-        twins = {k0.k + b"\n", k0.k + b" "}
+        # ... or a longer / shorter secret that begins like the right one
+        twins = {k0.k + b"\n", k0.k + b" ", k0.k + b"\x00", k0.k * 2, k0.k + rng.sub("twin-tail").bytes_(len(k0.k) or 1), k0.k[:-1], k0.k[:len(k0.k) // 2],
+                 k0.k[1:], b"\x00" + k0.k}
         try:
             text = k0.k.decode("utf-8")
             for nf in ("NFC", "NFD", "NFKC", "NFKD"):
@@ -335,7 +337,8 @@ def run(rng: Rng, tier: str, index: int) -> RunResult:
             pass
         twins.discard(k0.k)
         for tw in sorted(twins):
-            if alg in rjwe.PBES2 or len(tw) == len(k0.k):
+            # (HMAC pads its key with zero octets: for PBES2 a password and the same password followed by NULs are one key)
+            if tw and not (alg in rjwe.PBES2 and tw.rstrip(b"\x00") == k0.k.rstrip(b"\x00")):
                 attack("keysubst.look-alike-secret", "recipient holds %r instead of %r" % (tw[:24], k0.k[:24]), A,
                        use_conf=KeyConf(conf.kind, [RKey("oct", k=tw, params=dict(k0.params))], private=True))
     # wrong key type
